@@ -57,7 +57,9 @@ func (x *Exec) callFn(callee *ssa.Function, bind []Value, args []Value, st *Stat
 	if callee.Blocks == nil {
 		unsupported("external function without stub: %s", fullName(callee))
 	}
-	x.inlined++
+	if x.inSpec == 0 {
+		x.inlined++
+	}
 	rv, rst := x.runBound(callee, bind, args, st, pc)
 	st.h = rst.h
 	return rv
